@@ -6,7 +6,8 @@ from runner import Script, Cfg
 
 ID = "C19"
 THEOREMS = ["C19_udp_context_free", "C19_tcp_first_context_free", "C19_answered_context_free",
-            "C19_constant_responders", "C19_rpc_endpoint_free", "C19_stun_shape", "C19_dns_prefix"]
+            "C19_constant_responders", "C19_rpc_endpoint_free", "C19_stun_shape", "C19_dns_prefix",
+            "C19_frames_same_payload"]
 MONITORS = []
 RULE = ("every application payload (seeds of all protocols, prefixes and single-byte mutations of them, junk) is sent "
         "over UDP and as first TCP data segment to >= 24 (quick) / 64 (thorough) port pairs including 0, 53, 80, 111, 445, "
